@@ -92,6 +92,9 @@ def main():
     ck.family("paper_trading_several_clients", len(pcs), len(pcs), [], [i for i, _ in pbad])
     for i, why in pbad[:1]:
         ck.fail("C11-paper-clients", why, {"case": pcs[i], "out": pres[i], "how": "harness/impl/paperlib.py job clients"})
+    # the BETDAQ order poll (outside the Coq live model): it reports a change ONCE (diff since the last sequence number)
+    import betdaqcheck
+    betdaqcheck.run_family(ck, rng, 60 if thorough else 20, "betdaq_poll_convergence", ("C11",))
     return ck.finish("schedules of {requests, exchange calls, delayed responses with any outcome, exchange-side fills and lapses, bets of other instances / unknown strategies, snapshots (the cache image betfairlightweight hands over, partial, stale, duplicated), restarts} on the real process_current_orders / BetfairExecution / Blotter with an exchange double that keeps a consistent bet table; every step compared with the Coq live model; at the quiescent end of every schedule each local order is compared with the double's bet table (bet id, sizes, completeness, live list, trade) and every live bet of a known strategy must be held by exactly one local order")
 
 
